@@ -403,6 +403,19 @@ func (i *interpreter) resolveExternal(fn *ssa.Function) externalFn {
 		}
 	case "sort.SliceStable":
 		return func(fr *frame, a []value) value { fr.i.sliceStable(fr, a[0], a[1]); return nil }
+	case "sort.Search":
+		// the real binary search with the interpreted predicate (a symbolic outcome forks)
+		return func(fr *frame, a []value) value {
+			i := fr.i
+			i.stub("sort.Search = the real sort.Search driven by the interpreted predicate")
+			return sort.Search(int(asInt64(a[0])), func(k int) bool {
+				r := call(i, fr, 0, a[1], []value{k})
+				if rs, ok := r.(sym); ok {
+					return i.branch(rs.T)
+				}
+				return r.(bool)
+			})
+		}
 	case "sort.Slice":
 		return func(fr *frame, a []value) value { fr.i.sliceUnstable(fr, a[0], a[1]); return nil }
 	case "strconv.Atoi":
